@@ -58,12 +58,24 @@ func (r *Router) route(s Sender, p stanza.Packet) {
 		r.IQResultRouteLock.RLock()
 		route, ok := r.IQResultRoutes[iq.Id]
 		r.IQResultRouteLock.RUnlock()
+		if verifEnabled {
+			vpoint("route.lookup", "id", iq.Id, "found", ok)
+		}
 		if ok {
 			r.IQResultRouteLock.Lock()
 			delete(r.IQResultRoutes, iq.Id)
 			r.IQResultRouteLock.Unlock()
+			if verifEnabled {
+				vpoint("route.deleted", "id", iq.Id)
+			}
 			route.result <- *iq
+			if verifEnabled {
+				vpoint("route.sent", "id", iq.Id)
+			}
 			close(route.result)
+			if verifEnabled {
+				vpoint("route.closed", "id", iq.Id)
+			}
 			return
 		}
 	}
@@ -139,6 +151,9 @@ func (r *Router) NewIQResultRoute(ctx context.Context, id string) chan stanza.IQ
 	// is done.
 	go func() {
 		<-route.context.Done()
+		if verifEnabled {
+			vpoint("iqroute.ctxdone", "id", id)
+		}
 		r.IQResultRouteLock.Lock()
 		delete(r.IQResultRoutes, id)
 		r.IQResultRouteLock.Unlock()
